@@ -176,6 +176,26 @@ PROPS["C09"] = {
     "thorough": {"scale": 6, "shards": 16, "timeout": 1500},
 }
 
+PROPS["C10"] = {
+    "pkg": "c10",
+    "race": True,
+    "technique": "generated concurrent programs executed under the Go race detector with a start barrier and injected yields; per-key linearizability checked with porcupine against a register model; value-integrity and Stats-bound invariants",
+    "level_text": ("Exploration of schedules, not coverage of them: generated programs (2-8 goroutines x 5-40 operations over 1-4 keys, four configuration classes) "
+                   "are executed several times with different GOMAXPROCS under -race. Oracles: (a) no data-race report (happens-before based, so a missing lock is "
+                   "reported whenever both accesses execute, independent of timing); (b) every Get result is nil or a checksummed value naming that key; (c) the "
+                   "stamped history is linearizable per key as a register (porcupine; Clear copied into every partition; nil Get / false Set always admissible when "
+                   "entries can be evicted); (d) every Stats snapshot and the quiescent state satisfy the C09 bounds, and Hit+Miss equals the number of Gets. "
+                   "The logical interleavings of the OnDelete window are explored deterministically by C09's re-entrant scripts."),
+    "level_note": "Trusted: the Go race detector, porcupine v1.3.0. A porcupine time-out is counted as inconclusive for that execution, never a violation. Interleavings are sampled by the Go scheduler; the harness does not own the schedule.",
+    "rule": ("Programs drawn by rapid; each executed 3 (quick) / 12 (thorough) times with GOMAXPROCS in {2,4,16}. Non-trivial: an execution in which two goroutines "
+             "had time-overlapping operations on the same key with at least one mutator, or a Stats/Clear overlapping a mutator (measured from the invocation/"
+             "response stamps); distinct = distinct program."),
+    "assumptions": ["bounded non-LRU configurations are checked for integrity, bounds and races only (a false Set is ambiguous there)"],
+    "expect_classes": {},
+    "quick": {"scale": 1, "shards": 1, "timeout": 600},
+    "thorough": {"scale": 3, "shards": 8, "timeout": 1500},
+}
+
 ALL_IDS = ["C%02d" % i for i in range(1, 21)]
 NOT_APPLICABLE = [
     {"property_id": pid, "reason": "check not built yet in this revision of the harness (work in progress; see DESIGN.md section 9)"}
